@@ -40,20 +40,33 @@ def arr_digest(*xs):
     return int(h.hexdigest()[:15], 16)
 
 
-def flat_digest(x):
-    """digest of the values only (row-major), so that randn(n, bs) and randn(n*bs) agree"""
-    return arr_digest(np.asarray(x, dtype=np.float64).ravel())
+def flat_digest(x, dt=None):
+    """digest of the values (row-major, dtype included), so that randn(n, bs) and randn(n*bs) agree; `dt`: the block as
+    randn(..., dtype=dt) returns it (cast of the float64 draw)"""
+    a = np.asarray(x)
+    if dt is not None:
+        a = a.astype(dt)
+    return arr_digest(np.ascontiguousarray(a).ravel())
 
 
-def psd(seed, n):
+DTS = ("float64", "float32", "complex128", "complex64")
+
+
+def psd(seed, n, dt="float64"):
+    """Hermitian positive definite, small Gaussian-integer entries (exact in every dtype)"""
     rs = np.random.RandomState(seed)
     M = rs.randint(-3, 4, size=(n, n)).astype(np.float64)
-    return M @ M.T + n * np.eye(n)
+    if np.dtype(dt).kind == "c":
+        M = M + 1j * rs.randint(-2, 3, size=(n, n))
+    return (M @ M.conj().T + n * np.eye(n)).astype(dt)
 
 
-def gen_mat(seed, n):
+def gen_mat(seed, n, dt="float64"):
     rs = np.random.RandomState(seed)
-    return rs.randint(-4, 5, size=(n, n)).astype(np.float64) + np.eye(n)
+    G = rs.randint(-4, 5, size=(n, n)).astype(np.float64) + np.eye(n)
+    if np.dtype(dt).kind == "c":
+        G = G + 1j * rs.randint(-2, 3, size=(n, n))
+    return G.astype(dt)
 
 
 KINDS = ("randn", "rand", "normal")
@@ -80,7 +93,7 @@ def gen_history(rnd, length, sites):
             h.append(dict(e="cola", site=site, n=rnd.randint(3, 6), mseed=rnd.randint(0, 10 ** 6),
                           key=None if rnd.random() < 0.35 else rnd.randint(0, 2 ** 31),
                           k=rnd.choice([0, 0, 1, -1]), max_iters=rnd.randint(1, 4), tol=rnd.choice([0.02, 0.1, 0.5]),
-                          rank=rnd.randint(1, 2)))
+                          rank=rnd.randint(1, 2), dt=rnd.choice(DTS)))
     return h
 
 
@@ -99,16 +112,20 @@ def user_event(e, saved):
     raise AssertionError(e)
 
 
-def code(c, kind=0):
-    return 3 * c + kind
+def code(c, kind=0, dt="float64"):
+    """the argument of the abstract stream: how many numbers, which numpy routine (randn / rand / normal), and the dtype
+    randn casts the block to"""
+    return (4 * c + DTS.index(dt)) * 3 + kind
 
 
 def call_site(e, start=None):
     """runs one cola routine (public API). Returns (payload digests, number of probe blocks)."""
     site, n, key = e["site"], e["n"], e["key"]
-    S = psd(e["mseed"], n)
-    G = gen_mat(e["mseed"], n)
+    dt = e.get("dt", "float64")
+    S = psd(e["mseed"], n, dt)
+    G = gen_mat(e["mseed"], n, dt)
     P = cola.PSD(ops.Dense(S))
+    ones = np.ones(n, dtype=dt)
     if site in ("hutch", "hutch_diag", "hutch_trace"):
         rec = Recorder(ops.Dense(G))
         if site == "hutch":
@@ -156,7 +173,7 @@ def call_site(e, start=None):
     if site == "logdet":
         return [arr_digest(cola.linalg.logdet(P, Lanczos(max_iters=n), Hutch(key=key, max_iters=e["max_iters"], tol=e["tol"])))], 0
     if site == "expm":
-        return [arr_digest(cola.linalg.exp(P / (2.0 * n * n), Lanczos(max_iters=n)) @ np.ones(n))], 0
+        return [arr_digest(cola.linalg.exp(P / (2.0 * n * n), Lanczos(max_iters=n)) @ ones)], 0
     if site == "svd_lanczos":
         from cola.linalg.svd.svd import svd
         U, Sg, V = svd(ops.Dense(G), 2, "LM", Lanczos(max_iters=n))
@@ -168,7 +185,7 @@ def call_site(e, start=None):
     if site == "eigmax_auto":            # Auto -> PowerIteration with the default key
         return [arr_digest(cola.linalg.eigmax(P))], 0
     if site == "sqrt_lanczos":           # Lanczos started from the operand: no draw at all
-        return [arr_digest(cola.linalg.sqrt(P, Lanczos(max_iters=n)) @ np.ones(n))], 0
+        return [arr_digest(cola.linalg.sqrt(P, Lanczos(max_iters=n)) @ ones)], 0
     if site == "lobpcg":
         w, V = lobpcg(P, max_iters=2)
         return [arr_digest(w, V.to_dense())], 0
@@ -193,16 +210,16 @@ class Tables:
         self.sha[k] = sha_hash(k)
         return self.sha[k]
 
-    def need_keyed(self, key, count):
-        """seed(key); randn(count) on a private generator with the same algorithm; digests of state and block"""
+    def need_keyed(self, key, count, dt="float64"):
+        """seed(key); randn(count).astype(dt): digests of the seeded state and of the block"""
         keep = np.random.get_state()
         np.random.seed(key)
         s = state_digest()
         z = np.random.randn(count)
         self.seed[key] = s
-        self.draw[(s, code(count))] = (flat_digest(z), state_digest())
+        self.draw[(s, code(count, 0, dt))] = (flat_digest(z, dt), state_digest())
         np.random.set_state(keep)
-        return z
+        return z.astype(dt)
 
 
 def reference_run(hist, seed0, lob_global, tabs):
@@ -242,7 +259,7 @@ def impl_run(hist, seed0):
             try:
                 p, nblk = call_site(e)
             except Exception as ex:
-                p, err = [], f"{type(ex).__name__}: {ex}"
+                p, err = [], type(ex).__name__
         else:
             p = user_event(e, saved)
         saved.append(np.random.get_state())
@@ -251,11 +268,14 @@ def impl_run(hist, seed0):
 
 
 def clean_result(e):
-    """the same call in a different global state: for keyed_deterministic"""
+    """the same call in a different global state: for keyed_deterministic. Returns (payload, nblk, exception class or None)"""
     np.random.seed(424242)
     np.random.rand(7)
-    p, nblk = call_site(e)
-    return p, nblk
+    try:
+        p, nblk = call_site(e)
+        return p, nblk, None
+    except Exception as ex:
+        return [], 0, type(ex).__name__
 
 
 def okey(k):
@@ -275,6 +295,11 @@ def coq_history(hist, g0, ref_states, impl, tabs, lob_global, clean):
             evs.append(f"e_uset {ref_states[e['j']]}")
         else:
             site, n, key = e["site"], e["n"], e["key"]
+            dt = e.get("dt", "float64")
+            if impl[i]["err"] is not None or clean[i][2] is not None:
+                # the routine raised (not reachable for this dtype / operand): no value; the state must be what it was
+                evs.append(f"e_uset {ref_states[i - 1] if i > 0 else g0}")
+                continue
             res = clean[i][0][-1] if clean[i][0] else -1
             bs = min(100, n)
             tabs.need_sha(42)
@@ -284,50 +309,53 @@ def coq_history(hist, g0, ref_states, impl, tabs, lob_global, clean):
                 kk = tabs.need_sha(42) if key is None else key
                 for _ in range(max(nblk, e["max_iters"]) + 1):
                     kk = tabs.need_sha(kk)
-                    tabs.need_keyed(kk, n * bs)
+                    tabs.need_keyed(kk, n * bs, dt)
                 if site == "logdet":   # probe blocks are not observable through the Lanczos-based logdet
-                    evs.append(f"e_nystrom T {okey(key)} {code(n)}%nat {res}")
-                    tabs.need_keyed(tabs.sha[42] if key is None else key, n)
+                    evs.append(f"e_nystrom T {okey(key)} {code(n, 0, dt)}%nat {res}")
+                    tabs.need_keyed(tabs.sha[42] if key is None else key, n, dt)
                 else:
-                    evs.append(f"e_hutch T {okey(key)} {code(n * bs)}%nat {e['max_iters']}%nat {nblk}%nat {res}")
+                    evs.append(f"e_hutch T {okey(key)} {code(n * bs, 0, dt)}%nat {e['max_iters']}%nat {nblk}%nat {res}")
             elif site == "slq":
                 ns = max(int(1 / 0.5 ** 2), 1)
-                tabs.need_keyed(tabs.sha[0] if key is None else key, n * ns)
-                evs.append(f"e_slq {okey(key)} {code(n * ns)}%nat {res}")
+                tabs.need_keyed(tabs.sha[0] if key is None else key, n * ns, dt)
+                evs.append(f"e_slq {okey(key)} {code(n * ns, 0, dt)}%nat {res}")
             elif site in ("lanczos", "arnoldi"):
                 kk = tabs.sha[42] if key is None else key
-                z = tabs.need_keyed(kk, n)
+                z = tabs.need_keyed(kk, n, dt)
                 zd = flat_digest(z)
-                p2, _ = call_site(e, start=z)         # the routine given that very start vector
-                fz.append((i, zd, p2[-1]))
-                evs.append(f"e_start T {okey(key)} {code(n)}%nat {i} FZ")
+                try:
+                    p2, _ = call_site(e, start=z)         # the routine given that very start vector
+                    fz.append((i, zd, p2[-1]))
+                except Exception:
+                    pass
+                evs.append(f"e_start T {okey(key)} {code(n, 0, dt)}%nat {i} FZ")
             elif site == "power":
-                tabs.need_keyed(tabs.sha[42] if key is None else key, n)
-                evs.append(f"e_power T {okey(key)} {code(n)}%nat {res}")
+                tabs.need_keyed(tabs.sha[42] if key is None else key, n, dt)
+                evs.append(f"e_power T {okey(key)} {code(n, 0, dt)}%nat {res}")
             elif site == "nystrom":
-                tabs.need_keyed(tabs.sha[42] if key is None else key, n * e["rank"])
-                evs.append(f"e_nystrom T {okey(key)} {code(n * e['rank'])}%nat {res}")
+                tabs.need_keyed(tabs.sha[42] if key is None else key, n * e["rank"], dt)
+                evs.append(f"e_nystrom T {okey(key)} {code(n * e['rank'], 0, dt)}%nat {res}")
             elif site in ("eig_lanczos", "eig_arnoldi", "eig_power", "expm", "svd_lanczos", "eigmax_auto", "sqrt_lanczos"):
-                tabs.need_keyed(tabs.sha[42], n)
-                evs.append(f"e_nystrom T None {code(n)}%nat {res}")
+                tabs.need_keyed(tabs.sha[42], n, dt)
+                evs.append(f"e_nystrom T None {code(n, 0, dt)}%nat {res}")
             elif site in ("adanys", "selrank"):
-                tabs.need_keyed(tabs.sha[0], n * e["rank"])
-                tabs.need_keyed(tabs.sha[42], n)
-                evs.append(f"e_ada T {code(n)}%nat [{e['rank']}%nat] {res}")
+                evs.append(f"e_ada T {code(n, 0, dt)}%nat [{e['rank']}%nat] {res}")
             elif site == "rsvd":
-                tabs.need_keyed(tabs.sha[0], n * (e["rank"] + 1))
-                evs.append(f"e_unkeyed {code(n * (e['rank'] + 1))}%nat {res}")
+                tabs.need_keyed(tabs.sha[0], n * (e["rank"] + 1), dt)
+                evs.append(f"e_unkeyed {code(n * (e['rank'] + 1), 0, dt)}%nat {res}")
             elif site in LOB:
                 if lob_global:
                     evs.append(f"e_lobpcg {code(lobpcg_draw_count(e), 2)}%nat")
                 else:               # repaired tree: the start block is a keyed draw with the default key 42
-                    tabs.need_keyed(tabs.sha[42], lobpcg_draw_count(e))
-                    evs.append(f"e_lobpcg_keyed T {code(lobpcg_draw_count(e))}%nat {res}")
+                    tabs.need_keyed(tabs.sha[42], lobpcg_draw_count(e), dt)
+                    evs.append(f"e_lobpcg_keyed T {code(lobpcg_draw_count(e), 0, dt)}%nat {res}")
             else:
                 raise AssertionError(site)
     obs = []
     for e, o in zip(hist, impl):
         p = o["payload"]
+        if e["e"] == "cola" and o["err"] is not None:
+            p = []
         if e["e"] == "cola" and e["site"] in LOB and lob_global:
             p = []                                # its value depends on the history (that is the defect); state only
         obs.append("(%d, [%s])" % (o["state"], ";".join(str(x) for x in p)))
@@ -364,14 +392,14 @@ def oracle_history(hist, impl, clean, lob_known):
     for i, (e, o) in enumerate(zip(hist, impl)):
         if e["e"] != "cola":
             continue
-        if o["err"]:
-            bad.append(f"event {i} {e['site']} raised {o['err']}")
-            continue
         lob = e["site"] in LOB
         if lob and lob_known:
             continue
+        dsc = f"{e['site']}(dtype={e.get('dt', 'float64')}, key={e['key']})"
         if o["state"] != o["before"]:
-            bad.append(f"event {i}: {e['site']} changed the global numpy RNG state")
-        if o["payload"] != clean[i][0]:
-            bad.append(f"event {i}: {e['site']}(key={e['key']}) is not bit-identical to the same call in another global state")
+            bad.append(f"event {i}: {dsc} changed the global numpy RNG state")
+        if o["err"] != clean[i][2]:
+            bad.append(f"event {i}: {dsc} raised {o['err']} here but {clean[i][2]} in another global state")
+        elif o["err"] is None and o["payload"] != clean[i][0]:
+            bad.append(f"event {i}: {dsc} is not bit-identical to the same call in another global state")
     return bad
